@@ -330,6 +330,25 @@ def stores(chk, repo, d):
                                  f"{d.show((tree, k))}"
                                  f"{' (' + probs[0] + ')' if probs else ''}, "
                                  f"expected c*B^{want}")
+                    continue
+                # a constant folded while the code is generated: what is
+                # left has to be the integer the division would give
+                v_ = env["value"]
+                if isinstance(v_, Obj) and v_.ci is not None and \
+                        v_.ci.qualname == E + "Constant":
+                    import math as _math
+                    raw = v_.fields.get("value")
+                    exact = c * d.base ** want
+                    good = isinstance(raw, (int, float)) and raw == int(
+                        raw) and int(raw) in (
+                            _math.trunc(exact), _math.floor(exact),
+                            round(exact) if want else _math.trunc(exact))
+                    if not good:
+                        fails.append(
+                            f"{dest!r} = {c}: folded to the constant "
+                            f"{raw!r}, which is not the integer the "
+                            f"conversion gives ({_math.trunc(exact)}); "
+                            f"whatever emits it decides the rounding")
         chk.ob("R02.1", sym, f"a Python number is stored at the "
                f"destination's scale ({rows} rows)", not fails, scale,
                "; ".join(fails[:3]) or "decimal constants reach integer "
